@@ -342,7 +342,7 @@ func TestC13Lab(t *testing.T) {
 	runs = append(runs, Run{Scenario: "c13", Arg: c13Arg{Blocks: 2, Parallel: 1, Depth: 2, Honest: true, StopAM: true}, Budget: 0})
 	Explore("TestC13Lab", rep, runs)
 	if n, _ := rep.Extra["adopted"].(int64); n == 0 {
-		core.HarnessError("vacuous: metadata was never adopted in any execution")
+		rep.Vacuous("vacuous: metadata was never adopted in any execution")
 	}
 	rep.Finish()
 }
